@@ -929,6 +929,10 @@ func (e *Env) setup() {
 					srv.ServeHTTP(w, r)
 				})
 			}
+			if strings.Contains(sc.Opts, "noflush") {
+				inner := h
+				h = http.HandlerFunc(func(w http.ResponseWriter, r *http.Request) { inner.ServeHTTP(plainWriter{w}, r) })
+			}
 			if strings.Contains(sc.Opts, "srvdl") {
 				inner := h
 				h = http.HandlerFunc(func(w http.ResponseWriter, r *http.Request) {
@@ -942,7 +946,7 @@ func (e *Env) setup() {
 			e.ch = &httpgrpc.Channel{Transport: http.DefaultTransport, BaseURL: u}
 		} else {
 			u, _ := url.Parse("http://mem")
-			e.ch = &httpgrpc.Channel{Transport: newMemTransport(srv, sc.EnvGiveUp, strings.Contains(sc.Opts, "fullduplex"), strings.Contains(sc.Opts, "srvdl")), BaseURL: u}
+			e.ch = &httpgrpc.Channel{Transport: newMemTransport(srv, sc.EnvGiveUp, strings.Contains(sc.Opts, "fullduplex"), strings.Contains(sc.Opts, "srvdl"), strings.Contains(sc.Opts, "noflush")), BaseURL: u}
 		}
 	case "direct":
 	default:
@@ -980,6 +984,11 @@ func (e *Env) body() {
 	}
 	if strings.Contains(e.sc.Opts, "timers") && !e.native {
 		mc.SetTimers(true) // deadline timers of individual calls may fire in this scenario
+	}
+	if strings.Contains(e.sc.Opts, "precancel") {
+		// every call of the scenario is made with a context that is already done
+		e.cancel()
+		e.rec.Cancelled = true
 	}
 	first := 0
 	if strings.Contains(e.sc.Opts, "seq0") {
